@@ -112,7 +112,7 @@ def cases(ctx):
     r = ctx.rng('histories')
     for hno in range(ctx.size(24, 1400)):
         vs = gen_history(r)
-        alg = r.choice(['sha1', 'sha256'])
+        alg = ['sha1', 'sha256'][(hno + ctx.shard) % 2]
         n = len(vs) - 1
         starts = ['v%d' % i for i in range(n)] + ['current', 'foreign', 'absent']
         for start in starts:
